@@ -216,7 +216,15 @@ def english():
         o.append("}")
     emit_words(c, allwords, inner, arms)
     open(os.path.join(T, "en_rows.inc"), "w", encoding="utf-8").write("\n".join(o) + "\n")
-    json.dump([{"word": w, "instr": ins, "marker": m} for w, ins, m in rows], open(os.path.join(T, "en_rows.json"), "w"))
+    def expect(ins, m):
+        import re as _re
+        mm = _re.match(r"EnI::(\w+)(?:\((.*)\))?", ins)
+        kind, args = mm.group(1), [int(x.replace("u8", "")) for x in (mm.group(2) or "").split(",") if x.strip()]
+        base = {"Zero": "0", "Hundred": "100", "Thousand": "1000", "Million": "1000000", "Billion": "1000000000"}.get(kind)
+        if base is None:
+            base = "".join(chr(a) for a in args)
+        return base + (m or "")
+    json.dump([{"word": w, "instr": ins, "marker": m, "expect": expect(ins, m)} for w, ins, m in rows], open(os.path.join(T, "en_rows.json"), "w"))
     print("en:", len(arms), "arms,", len(rows), "rows,", len(allwords), "words")
 
 
